@@ -5,7 +5,7 @@ git -C /repo diff --quiet || { echo "/repo dirty"; exit 2; }
 git -C /repo apply "$(readlink -f "$1")" || exit 2
 EVSAVE=$(mktemp -d); cp -a evidence/. $EVSAVE/   # evidence must describe the unchanged tree: put it back afterwards
 trap 'git -C /repo checkout -- .; cp -a $EVSAVE/. evidence/; rm -rf $EVSAVE' EXIT
-for p in C01 C02 C03 C04 C05 C06 C07 C08 C09 C10 C12 C13 C14 C15 C16 C17 C18 C19; do
+for p in ${PROPS:-C01 C02 C03 C04 C05 C06 C07 C08 C09 C10 C12 C13 C14 C15 C16 C17 C18 C19}; do
   out=$(SYMORD_SKIP_KANI=1 ./check $p --tier quick 2>&1); rc=$?
   echo "$p exit=$rc"
 done
